@@ -49,7 +49,7 @@ ASSUME DefaultCircuit(NameOf(x_08, <<x_bai, x_hc, x_3>>)) = x_hc \o <<DOT>> \o x
 ASSUME ParseMsg(x_ff08070400_2f0ab5424149303001020304, TRUE) =
          [kind |-> "ok", m |-> <<255, 8, 7, 4, 0>>, s |-> <<10, 181, 66, 65, 73, 48, 48, 1, 2, 3, 4>>]
 (* P decides most of the domain: worlds with exactly one admissible outcome *)
-Decided == {w \in W : (Cardinality(Admissible(w)) = 1 /\ ~NoneOk(w)) \/ (Admissible(w) = {} /\ NoneOk(w))}
+Decided == {w \in W : LET e == Eval(w) IN (Cardinality(e.adm) = 1 /\ ~e.none) \/ (e.adm = {} /\ e.none)}
 ASSUME Cardinality(Decided) * 10 >= Cardinality(W) * 6
 PmDecided == {c \in PmCases : ParseMsg(c.arg, c.oms = 1).kind # "open"}
 ASSUME Cardinality(PmDecided) * 10 >= Cardinality(PmCases) * 5
